@@ -25,7 +25,7 @@ class AV:
                  'label', 'pv', 'orth', 'lg', 'deg', 'unit', 'taint', 'lay',
                  'fn', 'env', 'self_', 'attrs', 'ext', 'keys', 'cls', 'src',
                  'note', 'uninit', 'maybe_none', 'nonneg', 'normed', 'idx', 'lo', 'nonlin',
-                 'delta', 'cnt', 'doc', 'deg_alt')
+                 'delta', 'cnt', 'doc', 'deg_alt', 'red', 'rel')
 
     def __init__(self, k, **kw):
         self.k = k
@@ -74,6 +74,12 @@ class AV:
         # when two paths with KNOWN but different degrees are joined: the
         # list of alternatives (deg itself is then None)
         self.deg_alt = None
+        # what a full reduction measured ('maxmod', 'max-signed', 'mean', ...)
+        self.red = None
+        # relation to other abstract objects (by identity):
+        #   ('row', M, i)   this vector is row i of the matrix object M
+        #   ('gramrow', i)  this vector is M @ M[i]: entry i is |M[i]|**2 >= 0
+        self.rel = None
         for a, v in kw.items():
             setattr(self, a, v)
         if k in ('list', 'dict', 'obj') and self.oid is None:
@@ -404,6 +410,7 @@ def _join_facets(r, a, b):
         if alts and len(alts) <= 8:
             r.deg_alt = alts
     r.unit = a.unit if a.unit == b.unit else None
+    r.red = a.red if a.red == b.red else None
     r.taint = a.taint | b.taint
 
 
